@@ -273,6 +273,8 @@ class AnsiString:
                 for setting_key, setting_value in old_settings.items():
                     if setting_key not in new_settings:
                         settings_to_remove.append(setting_value)
+                # Apply in the order of the sequence so that rendering this object reproduces that order
+                settings_to_apply = [x for x in settings if any(x is y for y in settings_to_apply)]
                 if settings_to_remove:
                     self.remove_formatting(settings_to_remove, key)
                 if settings_to_apply:
